@@ -38,7 +38,16 @@ def ssum(arr, lo, hi):
     return sum(arr[int(lo):int(hi)])
 
 
-HELPERS = {'forall': forall, 'forall2': forall2, 'exists': exists, 'implies': implies, 'iff': iff, 'ite': ite,
+def seg_weight(ST, d, parity):
+    from fractions import Fraction
+    return sum(Fraction(repr(float(d[j]))) if False else d[j] for (j, k) in ST if k == parity)
+
+
+def seg_all(ST, pred):
+    return all(pred(x) for x in ST)
+
+
+HELPERS = {'seg_weight': seg_weight, 'seg_all': seg_all, 'forall': forall, 'forall2': forall2, 'exists': exists, 'implies': implies, 'iff': iff, 'ite': ite,
            'is_none': is_none, 'ssum': ssum}
 
 
